@@ -1,3 +1,5 @@
 import PfVerif.Audit.Tool
 import PfVerif.Props.C13
+import PfVerif.Lemmas.C13Round
 #audit_module PfVerif.Props.C13
+#audit_module_ns PfVerif.Lemmas.C13Round PfVerif.C13Round
